@@ -150,6 +150,9 @@ func runC02(r *simrt.Run) {
 			}
 			size := 1 + t.Choose(batchMax)
 			to := from + uint64(size) - 1
+			if to <= h {
+				to = h + 1 // every batch makes progress
+			}
 			if to > upTo {
 				to = upTo
 			}
